@@ -232,6 +232,32 @@ def run(facts, tr, rep):
             in_ho = sw is not None and cb.in_arm(b, sw_bb, sw, "HalfOpen", c.bb)
             rep.ob("C04.TABLE", skey(b, "evaluate-outside-halfopen"), not in_ho, c.where(),
                    "window evaluation happens outside the HalfOpen arm" if not in_ho else "window evaluation inside the HalfOpen arm")
+    # ------------------------------------------------------------ REC: both services record with the classifier's verdict on the result
+    nrec = 0
+    for sb in cb.services:
+        for ch in descendants(facts, sb):
+            if ch.kind != "coroutine":
+                continue
+            gch = graph(ch)
+            recs = [c for c in gch.calls() if c.name in ("record_failure", "record_success") and any(d.startswith(CRATE) for d in c.targets_def())]
+            for c in recs:
+                nrec += 1
+                rep.saw(ch)
+                want = "true" if c.name == "record_failure" else "false"
+                edges = [e for e in dominating_edges(tr, ch, c.bb) if e["kind"] == "bool"]
+                cls = [e for e in edges if e["node"][0] == "call" and tr.call_of(e["node"]).name == "classify"]
+                extra = [e for e in edges if e not in cls and not (e["node"][0] == "call" and e["node"] in [x["node"] for x in cls])
+                         and not _is_admission_edge(tr, e, cb) and not _in_obs(gch, e)]
+                ok = len(cls) == 1 and cls[0]["label"] == want and not extra
+                if ok:
+                    cc = tr.call_of(cls[0]["node"])
+                    arg = peel(tr.expand(tr.operand(ch, cc.args[1], cc.loc)))
+                    ok = any(x[0] == "call" and tr.call_of(x).def_ == "core::future::future::Future::poll" for x in tr.walk(arg, limit=30))
+                rep.ob("C04.REC", skey(ch, "%s#%d" % (c.name, ordinal(gch, c))), ok, c.where(),
+                       "%s is recorded exactly when failure_classifier.classify(&result) is %s" % (c.name.split("_")[1], want) if ok else
+                       "%s is not decided by failure_classifier.classify(&result) alone (extra condition or different verdict): the two services of "
+                       "the breaker would count outcomes differently from the documented classifier" % c.name)
+    rep.floor("C04.record-sites", nrec, 4)
     # ------------------------------------------------------------ RESET
     window_fields = []
     if T is not None:
@@ -264,6 +290,17 @@ def run(facts, tr, rep):
         rep.ob("C04.SLIDE", skey(rb, "count-window-evicts"), ok, wherex or "%s:%d" % (rb.span["file"], rb.span["line"]),
                "the count-based recording path evicts old outcomes (a sliding window)" if ok else
                "the count-based window is only ever incremented or zeroed at a transition: it cannot be 'the last N calls'")
+
+
+def _is_admission_edge(tr, e, cb):
+    if e["node"][0] == "call" and cb.admission is not None:
+        return cb.admission.def_ in tr.call_of(e["node"]).targets_def()
+    return False
+
+
+def _in_obs(g, e):
+    from ..pair import in_observability_macro
+    return in_observability_macro(g.term(e["bb"]))
 
 
 def _clears_on_all_paths(facts, tr, body, cb, fname, fty, from_bb=None, must_reach_after_state_write=False, depth=0):
